@@ -9,6 +9,7 @@ import (
 	"strings"
 	"sync"
 	"sync/atomic"
+	"syscall"
 	"time"
 
 	"go.uber.org/goleak"
@@ -404,6 +405,13 @@ func init() {
 					cse.TimeoutMS = 45000
 					cs = append(cs, cse)
 				}
+			}
+			// one f1 instance executed twice; the second execution is interrupted by a real SIGINT
+			{
+				cse := core.MkCase("C05", "cli", 50, seed, map[string]int{"twice": 1})
+				cse.Solo = true
+				cse.TimeoutMS = 60000
+				cs = append(cs, cse)
 			}
 			// the real command line in file mode: limits.max-duration caps a plan whose stages add up to far more
 			for i := 0; i < map[string]int{"quick": 2, "thorough": 6}[tier]; i++ {
@@ -1015,6 +1023,10 @@ func c05Script(c *core.Case, o *core.Outcome) {
 func c05CLI(c *core.Case, o *core.Outcome) {
 	var pp map[string]int
 	c.Params(&pp)
+	if pp["twice"] == 1 {
+		c05CLITwice(c, o)
+		return
+	}
 	st := fmt.Sprintf("- duration: %ds\n  mode: constant\n  rate: 2/20ms\n", pp["stage_s"])
 	if pp["users"] == 1 {
 		st = fmt.Sprintf("- duration: %ds\n  mode: users\n", pp["stage_s"])
@@ -1067,4 +1079,45 @@ func c05CLI(c *core.Case, o *core.Outcome) {
 	o.AddObs("runs_returned", 1)
 	o.Sig("cli:file:users=%d", pp["users"])
 	o.Sample = map[string]any{"case": desc, "iterations": n.Load(), "first_to_last_start": span.String()}
+}
+
+// c05CLITwice: the same f1 instance executes two command lines; 300 ms into the second one (max-duration 12 s) the process
+// receives SIGINT, as from a terminal. The run stops requesting iterations: none starts more than 3 s after the signal, and
+// the command returns long before its max-duration.
+func c05CLITwice(c *core.Case, o *core.Outcome) {
+	var n, afterSignal atomic.Int64
+	var signalled atomic.Int64
+	base := time.Now()
+	inst := f1.New().WithLogger(slog.New(slog.NewTextHandler(io.Discard, nil))).Add("s", func(*f1testing.T) f1testing.RunFn {
+		return func(*f1testing.T) {
+			n.Add(1)
+			if s := signalled.Load(); s != 0 && int64(time.Since(base))-s > int64(3*time.Second) {
+				afterSignal.Add(1)
+			}
+			time.Sleep(5 * time.Millisecond)
+		}
+	})
+	if err := inst.ExecuteWithArgs([]string{"run", "users", "-c", "2", "-d", "200ms", "s"}); err != nil {
+		o.Inconc("the first execution returned %v", err)
+		return
+	}
+	done := make(chan error, 1)
+	go func() { done <- inst.ExecuteWithArgs([]string{"run", "users", "-c", "2", "-d", "12s", "s"}) }()
+	time.Sleep(300 * time.Millisecond)
+	signalled.Store(int64(time.Since(base)) + 1)
+	_ = syscall.Kill(os.Getpid(), syscall.SIGINT)
+	desc := "two executions of one instance, SIGINT 300 ms into the second (max-duration 12 s)"
+	select {
+	case <-done:
+	case <-time.After(30 * time.Second):
+		o.Violate("cli-twice-never-returns", "the second execution had not returned 30 s after the signal (%s)", desc)
+		return
+	}
+	o.Events = n.Load()
+	if afterSignal.Load() > 0 {
+		o.Violate("cli-twice-ignored-signal", "%d iterations started more than 3 s after the process received SIGINT: the second execution of the instance went on requesting iterations (%s)", afterSignal.Load(), desc)
+		return
+	}
+	o.AddObs("runs_returned", 1)
+	o.Sig("cli:twice")
 }
